@@ -16,7 +16,9 @@ THEOREMS_C17R = ["Slock.C17R.reachable_refcounts", "Slock.C17R.keycount_exact", 
 # simulation stage 2 -> stage 1 through `abs` (Slock/Properties/EngineSim.lean); partial: see the header of that file
 THEOREMS_SIM = ["Slock.SimP.abs_is_key_local", "Slock.SimP.lock_branch_refines", "Slock.SimP.unlock_branch_refines",
                 "Slock.SimP.sim_lock_quiet", "Slock.SimP.sim_unlock_quiet", "Slock.SimP.admission_contract_transfers",
-                "Slock.SimP.wake_pass_refines", "Slock.SimP.sim_lock_grant", "Slock.SimP.sim_unlock_hold", "Slock.SimP.sim_lock_hold", "Slock.SimP.reachable_ki", "Slock.SimP.SimInv.of_reachable", "Slock.SimP.sim_unlock_cancel"]
+                "Slock.SimP.wake_pass_refines", "Slock.SimP.sim_lock_grant", "Slock.SimP.sim_unlock_hold", "Slock.SimP.sim_lock_hold", "Slock.SimP.reachable_ki", "Slock.SimP.SimInv.of_reachable", "Slock.SimP.sim_unlock_cancel", "Slock.SimP.reachable_ks", "Slock.SimP.wait_priority_refines", "Slock.SimP.sim_lock", "Slock.SimP.sim_unlock"]
+# the closing statement for tick-free runs (Slock/Properties/EngineSimRun.lean)
+THEOREMS_SIMRUN = ["Slock.SimP.sim_step", "Slock.SimP.sim_run", "Slock.SimP.C01_mutex_transfers"]
 THEOREMS_C10 = ["Slock.C10.gate_lock", "Slock.C10.gate_unlock", "Slock.C10.no_journal_off_leader", "Slock.C10.follower_expiry_deferred",
                 "Slock.C10.follower_expiry_ended_only_after", "Slock.C10.follower_defers_again"]
 
@@ -90,8 +92,9 @@ def run_engine2(ctx, prefixes, n_quick=3000, n_thorough=40000, ops=40, extra=Non
 
 def audit_sim(ctx):
     """The stage-2 -> stage-1 simulation theorems proved so far (to be called from c01.py … c06.py / c17.py)."""
-    ctx.lake_build(["Slock.Properties.EngineSim"])
+    ctx.lake_build(["Slock.Properties.EngineSim", "Slock.Properties.EngineSimRun"])
     ctx.audit("Slock.Properties.EngineSim", THEOREMS_SIM)
+    ctx.audit("Slock.Properties.EngineSimRun", THEOREMS_SIMRUN)
 
 
 def run_c15_engine(ctx):
